@@ -1,6 +1,6 @@
 (* Props/C19.v — property theorems only.  C19: output tables label time correctly. *)
 From Coq Require Import ZArith QArith List String.
-From GHE Require Import Base.QUtil gen.Src Model.OutputTime Proof.OutputTimeP Proof.OutputTimeSpecP Proof.H2MGenP Proof.TablesP.
+From GHE Require Import Base.QUtil gen.Src Model.OutputTime Proof.OutputTimeP Proof.OutputTimeSpecP Proof.H2MGenP Proof.TablesP Model.GJoin.
 Import ListNotations.
 Open Scope Q_scope.
 
@@ -54,4 +54,22 @@ Theorem C19_bore_table_lists_the_coordinates : forall coords : list (Q * Q),
 Proof. exact bore_table_echo. Qed.
 Print Assumptions C19_bore_table_lists_the_coordinates.
 Example C19_bore_table_source_pinned : bore_table_rows_source = "design.ghe.gFunction.bore_locations"%string.
+Proof. reflexivity. Qed.
+
+(* the g-function table, row loop REGENERATED from output.py (get_g_function_data); its three columns are the .x / .y of the two interpolants
+   returned by grab_g_function — the curve used in the simulation — which is pinned as source text below.  For EVERY curve (equal-length columns, as
+   interp1d guarantees): one row per point, the columns are exactly x, y and y_bhw in order, so the time column is strictly increasing whenever the
+   curve's axis is (which C11_combine_axis proves for the joined axis) *)
+Theorem C19_g_table_rows_are_the_curve : forall x y z : list Q, List.length y = List.length x -> List.length z = List.length x ->
+  column 0 (g_table_rows x y z) = x /\ column 1 (g_table_rows x y z) = y /\ column 2 (g_table_rows x y z) = z /\
+  List.length (g_table_rows x y z) = List.length x /\ Forall (fun r => List.length r = 3%nat) (g_table_rows x y z).
+Proof. exact g_table_columns. Qed.
+Print Assumptions C19_g_table_rows_are_the_curve.
+Theorem C19_g_table_time_strictly_increasing : forall x y z : list Q, List.length y = List.length x -> List.length z = List.length x ->
+  strictly_increasing x -> strictly_increasing (column 0 (g_table_rows x y z)).
+Proof. exact g_table_time_increasing. Qed.
+Print Assumptions C19_g_table_time_strictly_increasing.
+Example C19_g_table_sources_pinned : g_table_rows_sources =
+  ["gf_adjusted, gf_bhw_adjusted = design.ghe.grab_g_function(design.ghe.B_spacing / float(design.ghe.bhe.b.H))"; "gf_log_vals = gf_adjusted.x";
+   "gf_g_vals = gf_adjusted.y"; "gf_bhw_g_vals = gf_bhw_adjusted.y"]%string.
 Proof. reflexivity. Qed.
